@@ -402,6 +402,7 @@ struct SmTarget : Target {
     /// a new edition was born at anchor a (its creator's open returned): older knowledge about a is void
     void born(int a, int k, int writer) {
         ed[a] = Ed(); ed[a].key = k; ed[a].writer = writer;
+        for (auto &u : users) u.erase(a);     // what is left of the old chain (a suffix shared with a fresh edition) is not a's any more
         for (auto &c : cov) c.erase(a);
         for (auto &c : exc) c.erase(a);
         for (auto &b : ban) b.erase(a);
